@@ -81,7 +81,7 @@ def cases(draw, base_heavy=False):
             g = "Ended"
         else:
             g = GUIDE_NEXT.get((g, e), g)
-    return {"role": role, "napps": napps, "events": evs, "backlog": draw(st.sampled_from([0, 0, 0, 3])) if base_heavy else 0}
+    return {"role": role, "napps": napps, "events": evs, "backlog": draw(st.sampled_from([0, 0, 3, 16])) if base_heavy else 0}
 
 
 class Run:
@@ -379,6 +379,10 @@ class Run:
                               f"{got} delivered, expected {det['delivered']}")
             if det.get("min_dwr") and self.count(new, 280, True) < det["min_dwr"]:
                 self.viol("an idle open connection emits a watchdog request after the configured timeout", "output/DWR/idle/missing",
+                          f"{self.count(new, 280, True)} DWR in 8 idle seconds with watchdog 5")
+            if det.get("min_dwr") and self.count(new, 280, True) > 2:
+                # 8 idle seconds with a 5 second watchdog: one request, two at most when the period was already running
+                self.viol("an idle open connection emits one watchdog request per timeout period", "output/DWR/idle/burst",
                           f"{self.count(new, 280, True)} DWR in 8 idle seconds with watchdog 5")
         else:
             # unspecified rows: never deliver outside Open, never answer CER outside Closed/Open
